@@ -322,8 +322,10 @@ func handleServiceAgent(Teamserver agent.TeamServer, Header agent.Header, Extern
 		err       error
 	)
 
-	/* search if a service 3rd party agent was registered with this MagicValue */
-	if !Teamserver.ServiceAgentExist(Header.MagicValue) {
+	/* search if a service 3rd party agent was registered with this MagicValue.
+	 * its service may disconnect at any time: look it up once and keep what we found */
+	ServiceAgent := Teamserver.ServiceAgent(Header.MagicValue)
+	if ServiceAgent == nil {
 		return Response, false
 	}
 
@@ -333,11 +335,11 @@ func handleServiceAgent(Teamserver agent.TeamServer, Header agent.Header, Extern
 	}
 	
 	// Update Callback time
-	if Teamserver.AgentExist(Header.AgentID) {
+	if Agent != nil {
 		Agent.UpdateLastCallback(Teamserver)
 	}
 	
-	Task = Teamserver.ServiceAgent(Header.MagicValue).SendResponse(AgentData, Header)
+	Task = ServiceAgent.SendResponse(AgentData, Header)
 	//logger.Debug("Response:\n", hex.Dump(Task))
 
 	_, err = Response.Write(Task)
